@@ -187,6 +187,9 @@ def compile_font(fontc, source, workdir, args=(), name="font", emit_ir=False, ti
     if os.path.exists(out):
         os.remove(out)
     cmd = [fontc, source, "-o", out, "--build-dir", bdir] + list(args)
+    if source.endswith(".glyphs") and os.path.exists(os.path.join(os.path.dirname(source), "manifest.json")):
+        # generated Glyphs sources: open-corner erasure (a Glyphs-native, shape-changing feature) is outside every property's oracle
+        cmd.append("--erase-open-corners=false")
     if emit_ir:
         cmd.append("--emit-ir")
     r = run(cmd, env=fontc_env(**envkw), timeout=timeout, cpu_s=cpu_s, as_bytes=as_bytes)
